@@ -1,5 +1,7 @@
 package props
 
+import "github.com/compose-spec/compose-go/v2/loader"
+
 // extra C02 inputs exercising list/map spellings on both merge sides
 func c02extraInputs() map[string]*Scn {
 	a := `
@@ -91,10 +93,37 @@ services:
       t: {condition: service_healthy, restart: true}
       u: {condition: service_completed_successfully, required: false}
 `
+	knownExt := `
+x-tune: {level: 9, tags: [top]}
+services:
+  a:
+    image: a
+    x-tune: {level: 1, tags: [one]}
+  b:
+    image: b
+    x-tune: {level: 2}
+  c:
+    image: c
+    x-tune: {tags: [three, more]}
+networks:
+  n:
+    x-tune: {level: 4}
+`
+	type tune struct {
+		Level int      `yaml:"level" json:"level"`
+		Tags  []string `yaml:"tags" json:"tags"`
+	}
+	// the extension type is registered once per option set: by value, by pointer, and as a map
+	knownBy := func(v any) []func(*loader.Options) {
+		return []func(*loader.Options){func(o *loader.Options) { o.KnownExtensions = map[string]any{"x-tune": v} }}
+	}
 	return map[string]*Scn{
-		"depends-refine":   {Files: map[string]string{"a.yaml": refineBase, "b.yaml": refineOver}, Main: []string{"a.yaml", "b.yaml"}},
-		"depends-short":    {Files: map[string]string{"a.yaml": refineBase}, Main: []string{"a.yaml"}},
-		"extends-samename": {Files: map[string]string{"compose.yaml": sameMain, "common.yaml": sameCommon}, Main: []string{"compose.yaml"}},
-		"spellings":        {Files: map[string]string{"a.yaml": a, "b.yaml": b}, Main: []string{"a.yaml", "b.yaml"}},
+		"known-ext-value":   {Files: map[string]string{"compose.yaml": knownExt}, Main: []string{"compose.yaml"}, Opts: knownBy(tune{})},
+		"known-ext-pointer": {Files: map[string]string{"compose.yaml": knownExt}, Main: []string{"compose.yaml"}, Opts: knownBy(&tune{})},
+		"known-ext-map":     {Files: map[string]string{"compose.yaml": knownExt}, Main: []string{"compose.yaml"}, Opts: knownBy(map[string]any{})},
+		"depends-refine":    {Files: map[string]string{"a.yaml": refineBase, "b.yaml": refineOver}, Main: []string{"a.yaml", "b.yaml"}},
+		"depends-short":     {Files: map[string]string{"a.yaml": refineBase}, Main: []string{"a.yaml"}},
+		"extends-samename":  {Files: map[string]string{"compose.yaml": sameMain, "common.yaml": sameCommon}, Main: []string{"compose.yaml"}},
+		"spellings":         {Files: map[string]string{"a.yaml": a, "b.yaml": b}, Main: []string{"a.yaml", "b.yaml"}},
 	}
 }
